@@ -142,6 +142,8 @@ class Run(Part):
         repo = os.path.abspath(os.environ.get("VERIF_REPO", "/repo"))
         if repo != "/repo":
             evdir = os.path.join(VERIF, "out", "scratch-evidence")
+        elif os.environ.get("VERIF_IS_REPLAY"):
+            evdir = os.path.join(VERIF, "out", "replay-evidence")
         os.makedirs(evdir, exist_ok=True)
         ev = _shrink(ev)
         with open(os.path.join(evdir, self.prop + ".json"), "w") as fh:
